@@ -25,7 +25,8 @@ RULE = ('Hypothesis-generated histories: 1-3 Transform2D and 1-3 Transform3D ins
 ASSUMPTIONS = [
     'NaN/inf rotations are not generated; membership of the stored rotation in [0, 360) is not asserted (for '
     'tiny negative floats x % 360.0 rounds to 360.0)',
-    'listeners read the property from inside their callback but do not modify transforms there',
+    'listeners read the property from inside their callback; a reactive listener assigns ANOTHER property of '
+    'the same transform there (at most one nested assignment per operation)',
 ]
 FINDINGS = {}
 EVENTS = ['on_position_change', 'on_rotation_change', 'on_scale_change']
@@ -44,7 +45,8 @@ def strategy():
     return st.fixed_dictionaries({
         'n2': st.integers(1, 3), 'n3': st.integers(1, 3),
         'ctor': st.lists(st.integers(0, 16 ** 3 * 2 - 1), min_size=6, max_size=6),
-        'listeners': st.lists(st.integers(1, 7 * 64 - 1).map(lambda p: {'events': p % 7 + 1, 'on': p // 7 % 64 or 1}),
+        'listeners': st.lists(st.integers(1, 7 * 64 * 3 - 1).map(
+            lambda p: {'events': p % 7 + 1, 'on': p // 7 % 64 or 1, 'reactive': p // 448 == 2}),
                               min_size=1, max_size=4),
         'ops': worldops.chunked(op, 30)})
 
@@ -61,16 +63,27 @@ def vec(dim, p):
 def run_case(case):
     facts = collections.Counter()
     log = []
-    current = {'t': None, 'prop': None}
+    current = {'t': None, 'prop': None, 'nested': None, 'dim': 2}
 
-    def make_listener(ix, mask):
+    def make_listener(ix, mask, reactive=False):
         evs = [e for i, e in enumerate(EVENTS) if mask >> i & 1]
         ns = {'__events__': {e: e for e in evs}}
         for e in evs:
             def cb(self, *a, _e=e):
                 # what does a read of the property return while the listeners are being told?
-                seen = getattr(current['t'], current['prop']) if current['t'] is not None else None
+                t = current['t']
+                seen = getattr(t, _e[3:-7]) if t is not None else None
                 log.append((ix, _e, a, seen))
+                if reactive and t is not None and current['nested'] is None and _e == 'on_%s_change' % current['prop']:
+                    # a listener that assigns ANOTHER property of the same transform from inside its callback
+                    other = PROPS[(PROPS.index(current['prop']) + 1) % 3]
+                    dim = current['dim']
+                    if other == 'rotation' and dim == 2:
+                        val = 725
+                    else:
+                        val = (dmath.Vec2 if dim == 2 else dmath.Vec3)(*([9, 8, 7][:dim]))
+                    current['nested'] = (other, val)
+                    setattr(t, other, val)
             ns[e] = cb
         return type('Lst%d' % ix, (), ns)(), set(evs)
 
@@ -98,7 +111,7 @@ def run_case(case):
     listeners = []
     subs = collections.defaultdict(set)      # (transform ix, event) -> listener ixs
     for li, spec in enumerate(case['listeners']):
-        lst, evs = make_listener(li, spec['events'])
+        lst, evs = make_listener(li, spec['events'], spec.get('reactive', False))
         listeners.append(lst)
         on = [ti for ti in range(len(transforms)) if spec['on'] >> ti & 1] or [li % len(transforms)]
         for ti in on:
@@ -129,7 +142,7 @@ def run_case(case):
         ti = tsel % len(transforms)
         t, dim = transforms[ti]
         del log[:]
-        current['t'], current['prop'] = t, prop
+        current['t'], current['prop'], current['nested'], current['dim'] = t, prop, None, dim
         if prop == 'rotation' and dim == 2:
             value = ROT2[p % len(ROT2)]
             if how == 'aug':
@@ -163,11 +176,37 @@ def run_case(case):
         if identical is not None and read is not identical:
             viol('assignment_stores_the_very_object', step=step, transform=ti, prop=prop)
         event = 'on_%s_change' % prop
+        nested = current['nested']
+        current['t'] = None
+        nested_log = []
+        if nested is not None:
+            # one listener assigned another property of this transform from inside its callback: that assignment
+            # owes its own notifications; the outer ones are still owed to every listener of the outer event
+            facts['assignment_from_inside_a_callback'] += 1
+            nprop, nval = nested
+            nevent = 'on_%s_change' % nprop
+            nested_log = [r for r in log if r[1] == nevent]
+            log[:] = [r for r in log if r[1] != nevent]
+            nstored = nval % 360. if (nprop == 'rotation' and dim == 2) else tuple(nval)
+            expected[ti][nprop] = nstored
+            nread = getattr(t, nprop)
+            if not same_value(nread, nstored):
+                viol('assignment_stores_the_value', step=step, transform=ti, prop=nprop, nested=True, read=repr(nread))
+            if sorted(li for (li, e, a, seen) in nested_log) != sorted(subs[(ti, nevent)]):
+                viol('exactly_the_listeners_of_that_event_on_that_transform_are_notified_once', step=step,
+                     transform=ti, event=nevent, nested=True, got=[(li, e) for (li, e, a, seen) in nested_log],
+                     expected=sorted(subs[(ti, nevent)]))
+            for (li, e, a, seen) in nested_log:
+                ok = (a[0] == nread) if isinstance(nread, (int, float)) else (a[0] is nread)
+                if len(a) != 1 or not ok:
+                    viol('callback_carries_the_value_a_read_returns', step=step, transform=ti, prop=nprop,
+                         nested=True, got=repr(a))
         want = sorted(subs[(ti, event)])
         got = sorted(li for (li, e, a, seen) in log)
         if got != want or any(e != event for (_li, e, _a, _s) in log):
             viol('exactly_the_listeners_of_that_event_on_that_transform_are_notified_once', step=step,
-                 transform=ti, event=event, got=[(li, e) for (li, e, a, seen) in log], expected=want)
+                 transform=ti, event=event, got=[(li, e) for (li, e, a, seen) in log], expected=want,
+                 assignment_from_inside_a_callback=nested is not None)
         for (li, e, a, seen) in log:
             if not (seen is read or (isinstance(read, (int, float)) and seen == read)):
                 viol('value_is_stored_before_the_listeners_are_notified', step=step, transform=ti, prop=prop,
